@@ -10,7 +10,11 @@
    deposit release DepositLockupBlocks after the cancel height, last block
    timestamp, RevertToPOW / RevertToDPOS and the switch back to DPOS at the
    work height (consensus mode), tryUpdateLastIrreversibleHeight in all three
-   branches.  Not modelled: inactive / illegal producers, DPoS v2 stake and
+   branches, emergency InactiveArbitrators (setInactiveProducer /
+   revertSettingInactiveProducer with the saturating penalty revert),
+   ActivateProducer and inactive -> active after 6 blocks, illegal evidence
+   (all four branches, penalty += / = ori).  Not modelled: inactivity counting
+   from confirms (the countArbitratorsInactivity family), DPoS v2 stake and
    votes, NFTs, CR council claims, the arbiter rotation of
    dpos/state/arbitrators.go.  Those are covered by the
    differential oracle of harness/cmd/c21 only.
@@ -43,18 +47,25 @@ Record params := Params {
   p_lockup : Z;      (* CRConfiguration.DepositLockupBlocks *)
   p_revert_start : Z;(* DPoSConfiguration.RevertToPOWStartHeight *)
   p_fee : Z;         (* MinTransactionFee *)
-  p_cap : Z          (* maxHistoryCapacity *)
+  p_cap : Z;         (* maxHistoryCapacity *)
+  p_emergency_penalty : Z;  (* DPoSConfiguration.EmergencyInactivePenalty *)
+  p_illegal_penalty : Z     (* illegal penalty in force (0 before ChangeCommitteeNewCRHeight) *)
 }.
 
 (* producer fields *)
-Definition F := 11%nat.
+Definition F := 18%nat.
 Definition fSt := 0%nat.  Definition fReg := 1%nat.  Definition fCancel := 2%nat.
 Definition fNick := 3%nat. Definition fDepAmt := 4%nat. Definition fVotes := 5%nat.
 Definition fTotal := 6%nat. Definition fInPending := 7%nat. Definition fInActive := 8%nat.
 Definition fInCanceled := 9%nat. Definition fInPendCanceled := 10%nat.
+Definition fInactiveSince := 11%nat. Definition fActReq := 12%nat. Definition fIllegalH := 13%nat.
+Definition fPenalty := 14%nat. Definition fInInactive := 15%nat. Definition fInIllegal := 16%nat.
+Definition fInEmergency := 17%nat.   (* EmergencyInactiveArbiters *)
 
 (* producer state codes: Go's ProducerState + 1; 0 = no producer in the slot *)
-Definition stPending := 1. Definition stActive := 2. Definition stCanceled := 4. Definition stReturned := 6.
+Definition stPending := 1. Definition stActive := 2. Definition stInactive := 3. Definition stCanceled := 4.
+Definition stIllegal := 5. Definition stReturned := 6.
+Definition max32 := 4294967295.        (* math.MaxUint32: no activation request *)
 
 Definition min_deposit := 500000000000.   (* state.MinDepositAmount = 5000 ELA *)
 Definition activate_duration := 6.
@@ -77,10 +88,6 @@ Section Layout.
   Definition iNeedTx : nat := (iTs + 8)%nat.   (* NeedRevertToDPOSTX *)
   Definition vlen : nat := (iTs + 9)%nat.
 
-  (* locations updated additively (votes, totalAmount); every other location
-     is assigned *)
-  Definition is_add (i : nat) : bool :=
-    Nat.ltb i (pK P * F) && (Nat.eqb (Nat.modulo i F) fVotes || Nat.eqb (Nat.modulo i F) fTotal).
 End Layout.
 
 Definition vec := list Z.
@@ -92,6 +99,7 @@ Definition setnth (i : nat) (v : Z) (l : vec) : vec :=
 Inductive prim :=
 | PSet (i : nat) (v : Z)
 | PAdd (i : nat) (d : Z)
+| PSubSat (i : nat) (p : Z)             (* x[i] := if x[i] < p then 0 else x[i] - p *)
 | PRet (ist itot : nat) (chg fee : Z)   (* if x[ist] = Canceled and x[itot] + chg <= fee then x[ist] := Returned *)
 | PLih (ilih idst : nat).               (* x[idst]++ ; x[ilih] := x[idst] *)
 
@@ -99,6 +107,7 @@ Definition apply_prim (x : vec) (p : prim) : vec :=
   match p with
   | PSet i v => setnth i v x
   | PAdd i d => setnth i (get x i + d) x
+  | PSubSat i p => setnth i (if get x i <? p then 0 else get x i - p) x
   | PRet ist itot chg fee =>
       if (get x ist =? stCanceled) && (get x itot + chg <=? fee) then setnth ist stReturned x else x
   | PLih ilih idst => let x1 := setnth idst (get x idst + 1) x in setnth ilih (get x1 idst) x1
@@ -118,7 +127,10 @@ Inductive tx :=
 | TTopup (k : nat) (amount : Z) (r : nat)
 | TReturn (k : nat) (refs : list nat) (chg : Z)      (* spends deposit outputs refs *)
 | TRevertPow                                          (* RevertToPOW *)
-| TRevertDpos (interval : Z).                         (* RevertToDPOS, WorkHeightInterval *)
+| TRevertDpos (interval : Z)                          (* RevertToDPOS, WorkHeightInterval *)
+| TInactive (k : nat)                                 (* InactiveArbitrators naming producer k (emergency) *)
+| TActivate (k : nat)                                 (* ActivateProducer *)
+| TIllegal (k : nat).                                 (* illegal evidence against producer k *)
 
 Record block := Block { b_height : Z; b_time : Z; b_txs : list tx }.
 
@@ -134,10 +146,10 @@ Section Model.
         (* registerProducer *)
         [DChg [PSet (iNick P m) 1; PSet (iP k fInPending) 1; PSet (iP k fSt) stPending; PSet (iP k fReg) h;
                PSet (iP k fNick) (Z.of_nat m + 1); PSet (iP k fDepAmt) min_deposit; PAdd (iP k fTotal) amount;
-               PSet (iDep P r) amount]
+               PSet (iP k fActReq) max32; PSet (iDep P r) amount]
               [PSet (iNick P m) 0; PSet (iP k fInPending) 0; PSet (iP k fSt) 0; PSet (iP k fReg) 0;
                PSet (iP k fNick) 0; PSet (iP k fDepAmt) 0; PAdd (iP k fTotal) (- amount);
-               PSet (iDep P r) 0]]
+               PSet (iP k fActReq) 0; PSet (iDep P r) 0]]
     | TUpdate k m =>
         (* updateProducer / updateProducerInfo (nickname only) *)
         if exists_prod s k then
@@ -154,9 +166,11 @@ Section Model.
           let ori := get s (iP k fSt) in
           let nicki := iNick P (Z.to_nat (get s (iP k fNick) - 1)) in
           let moves_do := if ori =? stPending then [PSet (iP k fInPending) 0; PSet (iP k fInPendCanceled) 1]
-                          else if ori =? stActive then [PSet (iP k fInActive) 0] else [] in
+                          else if ori =? stActive then [PSet (iP k fInActive) 0]
+                          else if ori =? stInactive then [PSet (iP k fInInactive) 0] else [] in
           let moves_undo := if ori =? stPending then [PSet (iP k fInPending) 1; PSet (iP k fInPendCanceled) 0]
-                            else if ori =? stActive then [PSet (iP k fInActive) 1] else [] in
+                            else if ori =? stActive then [PSet (iP k fInActive) 1]
+                            else if ori =? stInactive then [PSet (iP k fInInactive) 1] else [] in
           [DChg ([PSet (iP k fSt) stCanceled; PSet (iP k fCancel) h; PSet (iP k fInCanceled) 1] ++ moves_do ++
                  [PSet nicki 0])
                 ([PSet (iP k fCancel) 0; PSet (iP k fInCanceled) 0; PSet (iP k fSt) ori] ++ moves_undo ++
@@ -197,6 +211,45 @@ Section Model.
         (* processRevertToDPOS *)
         [DChg [PSet (iWork P) (h + iv); PSet (iNeedTx P) 0]
               [PSet (iWork P) (get s (iWork P)); PSet (iNeedTx P) (get s (iNeedTx P))]]
+    | TInactive k =>
+        (* processEmergencyInactiveArbitrators: setInactiveProducer / revertSettingInactiveProducer
+           (emergency; VersionStartHeight = VersionEndHeight = 0), for a producer in
+           ActivityProducers and again for one in InactiveProducers *)
+        let c := DChg [PSet (iP k fInactiveSince) h; PSet (iP k fActReq) max32; PSet (iP k fSt) stInactive;
+                       PSet (iP k fInInactive) 1; PSet (iP k fInActive) 0;
+                       PAdd (iP k fPenalty) (p_emergency_penalty P); PSet (iP k fInEmergency) 1]
+                      [PSet (iP k fInactiveSince) 0; PSet (iP k fActReq) max32; PSet (iP k fSt) stActive;
+                       PSet (iP k fInActive) 1; PSet (iP k fInInactive) 0;
+                       PSubSat (iP k fPenalty) (p_emergency_penalty P); PSet (iP k fInEmergency) 0] in
+        (if get s (iP k fInActive) =? 1 then [c] else []) ++ (if get s (iP k fInInactive) =? 1 then [c] else [])
+    | TActivate k =>
+        (* activateProducer *)
+        if exists_prod s k then [DChg [PSet (iP k fActReq) h] [PSet (iP k fActReq) max32]] else []
+    | TIllegal k =>
+        (* processIllegalEvidence, by the map the producer is in *)
+        let pi := p_illegal_penalty P in
+        let ori := get s (iP k fSt) in
+        let oriPen := get s (iP k fPenalty) in
+        let oriIll := get s (iP k fIllegalH) in
+        if get s (iP k fInActive) =? 1 then
+          [DChg [PSet (iP k fSt) stIllegal; PSet (iP k fIllegalH) h; PSet (iP k fInIllegal) 1; PSet (iP k fActReq) max32;
+                 PAdd (iP k fPenalty) pi; PSet (iP k fInActive) 0]
+                [PSet (iP k fSt) ori; PSet (iP k fPenalty) oriPen; PSet (iP k fIllegalH) oriIll; PSet (iP k fInActive) 1;
+                 PSet (iP k fActReq) max32; PSet (iP k fInIllegal) 0]]
+        else if get s (iP k fInInactive) =? 1 then
+          [DChg [PSet (iP k fSt) stIllegal; PSet (iP k fIllegalH) h; PSet (iP k fInIllegal) 1; PSet (iP k fActReq) max32;
+                 PAdd (iP k fPenalty) pi; PSet (iP k fInInactive) 0]
+                [PSet (iP k fSt) ori; PSet (iP k fPenalty) oriPen; PSet (iP k fIllegalH) oriIll; PSet (iP k fInInactive) 1;
+                 PSet (iP k fActReq) max32; PSet (iP k fInIllegal) 0]]
+        else if get s (iP k fInIllegal) =? 1 then
+          [DChg [PSet (iP k fIllegalH) h; PSet (iP k fActReq) max32; PAdd (iP k fPenalty) pi]
+                [PSet (iP k fPenalty) oriPen; PSet (iP k fIllegalH) oriIll; PSet (iP k fActReq) max32]]
+        else if get s (iP k fInCanceled) =? 1 then
+          [DChg [PSet (iP k fSt) stIllegal; PSet (iP k fIllegalH) h; PSet (iP k fInIllegal) 1;
+                 PAdd (iP k fPenalty) pi; PSet (iP k fInCanceled) 0]
+                [PSet (iP k fSt) ori; PSet (iP k fIllegalH) 0; PSet (iP k fPenalty) oriPen; PSet (iP k fInCanceled) 1;
+                 PSet (iP k fInIllegal) 0]]
+        else []
     end.
 
   (* processTransactions, at the end: back to DPOS at the work height *)
@@ -212,6 +265,12 @@ Section Model.
       if (get s (iP k fInPending) =? 1) && (activate_duration <=? h - get s (iP k fReg) + 1)
       then [DChg [PSet (iP k fSt) stActive; PSet (iP k fInActive) 1; PSet (iP k fInPending) 0]
                  [PSet (iP k fSt) stPending; PSet (iP k fInPending) 1; PSet (iP k fInActive) 0]]
+      else []) slots ++
+    flat_map (fun k =>
+      if (get s (iP k fInInactive) =? 1) && (get s (iP k fActReq) <? h) &&
+         (activate_duration <=? h - get s (iP k fActReq) + 1)
+      then [DChg [PSet (iP k fSt) stActive; PSet (iP k fInActive) 1; PSet (iP k fInInactive) 0]
+                 [PSet (iP k fSt) stInactive; PSet (iP k fInInactive) 1; PSet (iP k fInActive) 0]]
       else []) slots.
 
   (* updateProducersDepositCoin *)
@@ -274,46 +333,54 @@ Section Model.
     end.
 
   (* ---- change discipline, as a computable check on the pre-block state ----
-     undo lists: assignments of the pre-block value to assigned locations, and
-     the exact negations of the additive updates of the do list, in order;
-     do lists: additive updates only on additive locations, anything else only
-     on assigned locations that the undo list assigns. *)
+     For every coordinate j of the state, looking at all do lists D and all
+     undo lists U of the block (in order), one of:
+     (A) nothing targets j;
+     (C) the last primitive of U that targets j assigns the pre-block value;
+     (B) everything that targets j is an addition and the additions of D and U
+         sum to zero;
+     (B') j is targeted by exactly one addition p >= 0 in D and exactly one
+         saturating subtraction of p in U, and the pre-block value is >= 0. *)
   Definition prim_target (p : prim) : list nat :=
-    match p with PSet i _ => [i] | PAdd i _ => [i] | PRet i _ _ _ => [i] | PLih a b => [a; b] end.
-
-  Definition adds (ps : list prim) : list (nat * Z) :=
-    flat_map (fun p => match p with PAdd i d => if is_add P i then [(i, d)] else [] | _ => [] end) ps.
-
-  Definition undo_prim_ok (s : vec) (p : prim) : bool :=
     match p with
-    | PSet i v => negb (is_add P i) && (v =? get s i) && Nat.ltb i (length s)
-    | PAdd i _ => is_add P i && Nat.ltb i (length s)
-    | _ => false
+    | PSet i _ => [i] | PAdd i _ => [i] | PSubSat i _ => [i] | PRet i _ _ _ => [i] | PLih a b => [a; b]
     end.
 
-  Definition do_prim_ok (s : vec) (undo : list prim) (p : prim) : bool :=
-    match p with
-    | PAdd i _ => if is_add P i then Nat.ltb i (length s)
-                  else existsb (fun q => match q with PSet j _ => Nat.eqb i j | _ => false end) undo
-    | _ => forallb (fun i => negb (is_add P i) &&
-                             existsb (fun q => match q with PSet j _ => Nat.eqb i j | _ => false end) undo)
-                   (prim_target p)
+  Definition targets (j : nat) (p : prim) : bool := existsb (Nat.eqb j) (prim_target p).
+
+  Definition all_dos (cs : list dchg) : list prim := flat_map d_do cs.
+  Definition all_undos (cs : list dchg) : list prim := flat_map d_undo cs.
+
+  Fixpoint last_toucher (j : nat) (ps : list prim) : option prim :=
+    match ps with
+    | [] => None
+    | p :: r => match last_toucher j r with
+                | Some q => Some q
+                | None => if targets j p then Some p else None
+                end
     end.
 
-  Definition pair_eqb (a b : nat * Z) : bool := Nat.eqb (fst a) (fst b) && (snd a =? snd b).
-  Fixpoint list_eqb {A} (e : A -> A -> bool) (a b : list A) : bool :=
-    match a, b with
-    | [], [] => true
-    | x :: a', y :: b' => e x y && list_eqb e a' b'
-    | _, _ => false
-    end.
+  Definition add_or_other (j : nat) (p : prim) : bool :=
+    negb (targets j p) || match p with PAdd _ _ => true | _ => false end.
 
-  Definition disciplined (s : vec) (c : dchg) : bool :=
-    forallb (undo_prim_ok s) (d_undo c) &&
-    forallb (do_prim_ok s (d_undo c)) (d_do c) &&
-    list_eqb pair_eqb (adds (d_undo c)) (map (fun kd => (fst kd, - snd kd)) (adds (d_do c))).
+  Definition add_sum (j : nat) (ps : list prim) : Z :=
+    fold_right (fun p a => match p with PAdd i d => if Nat.eqb i j then d + a else a | _ => a end) 0 ps.
+
+  Definition coord_ok (s : vec) (cs : list dchg) (j : nat) : bool :=
+    let D := all_dos cs in
+    let U := all_undos cs in
+    (negb (existsb (targets j) D) && negb (existsb (targets j) U))
+    || match last_toucher j U with Some (PSet _ v) => v =? get s j | _ => false end
+    || (forallb (add_or_other j) D && forallb (add_or_other j) U && (add_sum j D + add_sum j U =? 0))
+    || match filter (targets j) D, filter (targets j) U with
+       | [PAdd _ p], [PSubSat _ q] => (p =? q) && (0 <=? p) && (0 <=? get s j)
+       | _, _ => false
+       end.
+
+  Definition changes_disciplined (s : vec) (cs : list dchg) : bool :=
+    forallb (coord_ok s cs) (seq 0 (length s)).
 
   Definition block_disciplined (s : vec) (b : block) : bool :=
-    forallb (disciplined s) (block_changes s b).
+    changes_disciplined s (block_changes s b).
 
 End Model.
